@@ -11,6 +11,9 @@ Transcribed (of the repaired tree, see design_notes/C10.md):
 * `Module.writeInitParams` + head of `__pollThread`  modulebase.py:726-737, 797-821 → `prologue`
 * `SecNode.get_module_instance` / `create_modules`   secnode.py:99-165 → `createNode`
 * `Config.merge_modules` / `load_config`             config.py:113-135, 186-215 → `mergeModules`, `loadConfig`
+* `Param.__init__`, `Mod.__init__` (bare values, `Group`)  config.py:53-90 → `paramDict`, `modArgStep`, `setGroup`, `modDict`
+* the `continue` for optional accessibles             modulebase.py:405-411 → `AccDecl`, `accLoop`, `implemented`
+* cfg of a `Command` (`Command.setProperty`)          modulebase.py:476-486, params.py:505-514 → `cmdEntries`, `applyCommands`
 
 Datatypes are ORACLES (`Ops`): conversion `dt(x)`, validation `dt.validate(x)`, `setProperty`,
 `checkProperties`.  The class description is data.  Quirks kept:
@@ -45,6 +48,8 @@ structure Ops (DT Val : Type) where
   checkDT : DT → Bool                      -- `dt.checkProperties()` passes
   dtDefault : DT → Val                     -- `dt.default`
   ownProp : Name → Option (Val → Option Val)  -- settable properties of `Parameter` itself (not value/default)
+  cmdProp : Name → Option (Val → Option Val)  -- settable properties of `Command`
+  cmdRaises : Name → Val → Bool               -- the refusal of a `Command` property value is a `ValueError` (not a `BadValueError`)
   limitDT : LimitKind → DT → DT            -- `Limit.set_datatype`
   limitDefault : LimitKind → DT → Val
 
@@ -81,7 +86,7 @@ structure ParamDesc (DT Val : Type) where
 structure ClassDesc (DT Val : Type) where
   modProps : List (ModPropDesc Val)      -- `propertyDict` order
   params : List (ParamDesc DT Val)       -- `accessibles` order (non-optional parameters)
-  otherNames : List Name                 -- commands: known names whose cfg is not modelled
+  otherNames : List Name                 -- commands
 
 /-- a module property in the cfg: bare value, or a dict with or without the key `value` -/
 inductive PropCfg (Val : Type) where
@@ -352,6 +357,49 @@ def paramStep {DT Val : Type} (ops : Ops DT Val) (cfg : Cfg Val) (acc : ParamsOu
 def applyParams {DT Val : Type} (ops : Ops DT Val) (ps : List (ParamDesc DT Val)) (cfg : Cfg Val) : ParamsOut DT Val :=
   ps.foldl (paramStep ops cfg) ⟨[], [], [], false⟩
 
+/-! ## commands in the cfg (modulebase.py:476-486)
+
+`Command.setProperty` is `HasProperties.setProperty`: an unknown property is a `KeyError`, an ill-typed value a
+`BadValueError` — both are COLLECTED by `_add_accessible` (unlike `Parameter.setProperty`, which turns them into a
+`ProgrammingError`); the loop over the cfg of that command ends there. -/
+
+inductive CmdRes where
+  | errs (es : List CfgErr)
+  | raised                   -- an exception nobody catches leaves the constructor
+
+/-- `Command.setProperty` turns a `ValueError` (a string or number which is not a member of the `visibility` enum) into
+a `ProgrammingError`, which `_add_accessible` does not catch; a `BadValueError` (wrong type) is collected -/
+def cmdEntries {DT Val : Type} (ops : Ops DT Val) (name : Name) : List (Name × Val) → CmdRes
+  | [] => .errs []
+  | (k, v) :: rest =>
+    match ops.cmdProp k with
+    | none => .errs [.unknownProp name k]
+    | some f =>
+      match f v with
+      | none => if ops.cmdRaises k v then .raised else .errs [.badValue name k]
+      | some _ => cmdEntries ops name rest
+
+def addCommand {DT Val : Type} (ops : Ops DT Val) (name : Name) : Option (Entry Val) → CmdRes
+  | none => .errs []
+  | some (.prop _) => .raised            -- `cfg.items()` on something that is not a dict: AttributeError
+  | some (.acc items) => cmdEntries ops name items
+
+structure CmdsOut where
+  errs : List CfgErr
+  raised : Bool
+
+def cmdStep {DT Val : Type} (ops : Ops DT Val) (cfg : Cfg Val) (acc : CmdsOut) (n : Name) : CmdsOut :=
+  if acc.raised then acc else
+  match addCommand ops n (lookup n cfg) with
+  | .raised => { acc with raised := true }
+  | .errs es => { acc with errs := acc.errs ++ es }
+
+/-- the commands of the class (`otherNames`).  In the constructor they are handled by the same loop as the parameters,
+in `accessibles` order; the model keeps them apart (what is collected for commands is listed after what is collected
+for parameters — the harness compares the two groups separately) -/
+def applyCommands {DT Val : Type} (ops : Ops DT Val) (names : List Name) (cfg : Cfg Val) : CmdsOut :=
+  names.foldl (cmdStep ops cfg) ⟨[], false⟩
+
 /-! ## names left over (modulebase.py:399-403) and the final checks (416-428) -/
 
 def knownNames {DT Val : Type} (c : ClassDesc DT Val) : List Name :=
@@ -380,7 +428,8 @@ def unknownErr (left : List Name) : List CfgErr :=
 
 /-- everything collected before the final checks -/
 def phase1 {DT Val : Type} (ops : Ops DT Val) (c : ClassDesc DT Val) (cfg : Cfg Val) : List CfgErr :=
-  (applyModProps c.modProps cfg).errs ++ (applyParams ops c.params cfg).errs ++ unknownErr (leftover c cfg)
+  (applyModProps c.modProps cfg).errs ++ (applyParams ops c.params cfg).errs ++
+    (applyCommands ops c.otherNames cfg).errs ++ unknownErr (leftover c cfg)
 
 /-- the final checks (only run when nothing was collected) -/
 def phase2 {DT Val : Type} (ops : Ops DT Val) (c : ClassDesc DT Val) (cfg : Cfg Val) : List CfgErr :=
@@ -389,7 +438,8 @@ def phase2 {DT Val : Type} (ops : Ops DT Val) (c : ClassDesc DT Val) (cfg : Cfg 
 
 def applyConfig {DT Val : Type} (ops : Ops DT Val) (c : ClassDesc DT Val) (cfg : Cfg Val) :
     Except (List CfgErr) (Instance DT Val) :=
-  if (applyModProps c.modProps cfg).raised || (applyParams ops c.params cfg).raised then .error [.raised] else
+  if (applyModProps c.modProps cfg).raised || (applyParams ops c.params cfg).raised ||
+      (applyCommands ops c.otherNames cfg).raised then .error [.raised] else
   match phase1 ops c cfg with
   | e :: es => .error (e :: es)
   | [] =>
@@ -449,6 +499,75 @@ def writeInitParams {DT Val : Type} (consumes : WriteOracle Val) (i : Instance D
 
 def prologue {DT Val : Type} (consumes : WriteOracle Val) (i : Instance DT Val) : List (Ev Val) :=
   writeInitParams consumes i ++ [Ev.firstPoll]
+
+/-! ## optional accessibles (modulebase.py:405-411)
+
+`for aname, aobj in accessibles.items(): if aobj.optional: continue; …; acfg = cfgdict.pop(aname, None); …`
+— an accessible declared in a base class with `optional=True` and not implemented by the class is skipped BEFORE its
+cfg entry is taken out of `cfgdict`: a cfg entry for it stays there and is reported as "does not exist". -/
+
+/-- one entry of the class attribute `accessibles` as the loop of the constructor sees it -/
+structure AccDecl (DT Val : Type) where
+  desc : ParamDesc DT Val
+  optional : Bool                -- declared `optional=True` and not implemented by this class
+
+structure LoopOut (DT Val : Type) where
+  out : ParamsOut DT Val
+  popped : List Name             -- the names whose entry the loop took out of `cfgdict`
+
+def accStep {DT Val : Type} (ops : Ops DT Val) (cfg : Cfg Val) (acc : LoopOut DT Val) (d : AccDecl DT Val) :
+    LoopOut DT Val :=
+  if d.optional then acc                                       -- `continue`: nothing popped
+  else ⟨paramStep ops cfg acc.out d.desc, if acc.out.raised then acc.popped else acc.popped ++ [d.desc.name]⟩
+
+def accLoop {DT Val : Type} (ops : Ops DT Val) (ds : List (AccDecl DT Val)) (cfg : Cfg Val) : LoopOut DT Val :=
+  ds.foldl (accStep ops cfg) ⟨⟨[], [], [], false⟩, []⟩
+
+/-- the accessibles the instance gets: the class description the rest of the model works with -/
+def implemented {DT Val : Type} (ds : List (AccDecl DT Val)) : List (ParamDesc DT Val) :=
+  (ds.filter (fun d => !d.optional)).map (·.desc)
+
+/-! ## the configuration DSL (config.py:53-90): `Param`, `Group`, `Mod` -/
+
+/-- a keyword argument of `Mod(name, cls, description, …)` as written in a configuration file -/
+inductive DslArg (Val : Type) where
+  | bare (v : Val)                                           -- `key=v`: "shortcut to only set value"
+  | param (value : Option Val) (kwds : List (Name × Val))    -- `key=Param(v, k=…)` / `Param(k=…)`; `Command` is the same class
+  | group (members : List Name)                              -- `key=Group('a', 'b')`
+
+/-- `Param.__init__(self, value=Undef, **kwds)`: the keywords as written, then `value` when one was given.  `Undef` is a
+sentinel class: ANY given value — `None`, `0`, `''`, `False` too — ends up in the dict -/
+def paramDict {Val : Type} (value : Option Val) (kwds : List (Name × Val)) : List (Name × Val) :=
+  match value with
+  | some v => setKey "value" v kwds
+  | none => kwds
+
+/-- first loop of `Mod.__init__`: a `Param` is stored as it is, a bare value is wrapped, groups are kept for later -/
+def modArgStep {Val : Type} (d : Cfg Val) (kv : Name × DslArg Val) : Cfg Val :=
+  match kv.2 with
+  | .bare v => setKey kv.1 (.acc (paramDict (some v) [])) d
+  | .param value kwds => setKey kv.1 (.acc (paramDict value kwds)) d
+  | .group _ => d
+
+/-- `self[member]['group'] = group`: `KeyError` for a member without entry, `TypeError` for `description` (a str) -/
+def setGroup {Val : Type} (mkStr : Name → Val) (g : Name) (d : Option (Cfg Val)) (member : Name) : Option (Cfg Val) :=
+  match d with
+  | none => none
+  | some d =>
+    match lookup member d with
+    | some (.acc items) => some (setKey member (.acc (setKey "group" (mkStr g) items)) d)
+    | _ => none
+
+def groupsOf {Val : Type} (args : List (Name × DslArg Val)) : List (Name × List Name) :=
+  args.filterMap fun kv => match kv.2 with
+    | .group ms => some (kv.1, ms)
+    | _ => none
+
+/-- `Mod.__init__` without `name`/`cls` (taken out by `Config.__init__` / `get_module_instance`); `none`: an exception
+leaves `exec` — the file is not loaded at all.  `description` is a plain string -/
+def modDict {Val : Type} (mkStr : Name → Val) (description : Val) (args : List (Name × DslArg Val)) : Option (Cfg Val) :=
+  (groupsOf args).foldl (fun d g => g.2.foldl (setGroup mkStr g.1) d)
+    (some (args.foldl modArgStep [("description", .prop (.bare description))]))
 
 /-! ## merging of config files (config.py:105-135, 186-215) -/
 
